@@ -67,6 +67,17 @@ func (e *eqEngine) run(payload string) string {
 	if !ok || rb != direct {
 		return "inconsistent"
 	}
+	// the same two values as the REAL reader builds them from their printed text (cursors on lists, vectors and
+	// symbols, the reader's own map / set constructors): `=` must not see the difference
+	if ra, rbv, ok := rereadPair(a, b, e.env); ok {
+		if Equal_Q(ra, rbv) != direct || Equal_Q(a, rbv) != direct || Equal_Q(ra, b) != direct {
+			return "reader-built-values-differ"
+		}
+		r2, err := lisp.EVAL(context.Background(), List{Val: []MalType{Symbol{Val: "="}, quote(ra), quote(rbv)}}, e.env)
+		if b2, ok := r2.(bool); err != nil || !ok || b2 != direct {
+			return "reader-built-values-differ"
+		}
+	}
 	if rb {
 		return "T"
 	}
@@ -85,4 +96,25 @@ func (e *eqEngine) classify(payload, obs string) string {
 		return "bad"
 	}
 	return k(parts[0]) + k(parts[1]) + ":" + obs
+}
+
+// rereadPair: both values printed and read back by the real reader, each from its own text (two read sites);
+// ok only when both texts read back to the same canonical term (strings the printer/reader pair does not
+// round-trip are known findings of C06 and are left out)
+func rereadPair(a, b MalType, e EnvType) (ra, rb MalType, ok bool) {
+	defer func() {
+		if recover() != nil {
+			ok = false
+		}
+	}()
+	one := func(v MalType) (MalType, bool) {
+		t, err := lisp.READ(lisp.PRINT(v), nil, e)
+		if err != nil || render(t) != render(v) {
+			return nil, false
+		}
+		return t, true
+	}
+	ra, ok1 := one(a)
+	rb, ok2 := one(b)
+	return ra, rb, ok1 && ok2
 }
